@@ -1737,6 +1737,10 @@ func main() {
 						d2 = append(d2, valid[off+len(pat):]...)
 					}
 					b.emit(fmt.Sprintf("x %s %d %s", name, (off+k)%2, hx.Hex(d2)), "offset-sweep")
+					if len(pat) == 4 && pat[0] == 0xff && off+len(pat) < len(valid) {
+						// the input ENDS behind the hostile value: if it is a count, no element can be decoded from what is left
+						b.emit(fmt.Sprintf("x %s %d %s", name, (off+k+1)%2, hx.Hex(d2[:off+len(pat)])), "offset-sweep-cut")
+					}
 				}
 			}
 		}
